@@ -901,8 +901,9 @@ type C07 struct{}
 
 func (C07) Meta() core.Meta {
 	return core.Meta{
-		Property: "C07",
-		Level:    "exploration",
+		Property:   "C07",
+		Level:      "exploration",
+		NonVacuous: []string{"chunk_invariance_cases", "length_consistency_cases", "rescan_in_same_process_cases", "scaling_cases"},
 		Rule: "Each simulated run draws a stream from its seed (corpus GenBank/FASTA files, generated GenBank records, generated FASTA records, 1-4 records, LF or CRLF) and " +
 			"feeds it to the real auto-detecting scanner through a simulated pipe. Mode A sweeps the reader fault over the stream: EOF or EIO at offset c (every offset of " +
 			"small streams, otherwise boundaries + header + seeded offsets), optionally delivered together with the last data, under a seeded chunk schedule. Mode B applies " +
